@@ -504,7 +504,7 @@ func TestCheck(t *testing.T) {
 		r.Class("sched/schedules-executed", st.schedules)
 		r.Class("sched/scenarios-truncated-at-4000-schedules", st.truncated)
 	}
-	stress := evid.RapidEngine("stress", evid.RapidOpts{Quick: 600, Thorough: 20000}, genStress(300), func(sc stressScenario) *evid.Failure {
+	stress := evid.RapidEngine("stress", evid.RapidOpts{Quick: 400, Thorough: 20000}, genStress(200), func(sc stressScenario) *evid.Failure {
 		f := execStress(sc)
 		if f == nil {
 			b, _ := json.Marshal(sc.Workers)
@@ -515,7 +515,7 @@ func TestCheck(t *testing.T) {
 	})
 	_ = porcupine.Ok
 	r.Main(evid.Meta{
-		Rule:        "seq: sequential runs of the complete Map and Cache API against a Go-map-with-expiry model, full content compared after every step. sched: 2-3 workers x 1-3 operations x 1-2 keys (cache load/store/load-or-store/delete/sweep/range and map operations) executed under a cooperative scheduler whose switching points are the operation boundaries, the harness callbacks that run unlocked (Range) and the verif scheduling point inside CheckExpirations; every schedule of each configuration is enumerated (DFS) and the history is checked against the per-key sequential specification with porcupine (sweep = nondeterministic 'may remove the key iff expired'; iterating operations with the weak specification of their documentation) plus a final read-out; all 2-worker configurations over a 7-operation alphabet are enumerated exhaustively. stress: 2-16 real goroutines released together, 300 repetitions per pattern, call/return stamped with an atomic logical clock, checked with porcupine, under the race detector. Non-trivial = >= 2 workers touch one key with >= 1 write (or a sweep next to a write); distinct by configuration",
+		Rule:        "seq: sequential runs of the complete Map and Cache API against a Go-map-with-expiry model, full content compared after every step. sched: 2-3 workers x 1-3 operations x 1-2 keys (cache load/store/load-or-store/delete/sweep/range and map operations) executed under a cooperative scheduler whose switching points are the operation boundaries, the harness callbacks that run unlocked (Range) and the verif scheduling point inside CheckExpirations; every schedule of each configuration is enumerated (DFS) and the history is checked against the per-key sequential specification with porcupine (sweep = nondeterministic 'may remove the key iff expired'; iterating operations with the weak specification of their documentation) plus a final read-out; all 2-worker configurations over a 7-operation alphabet are enumerated exhaustively. stress: 2-16 real goroutines released together, 200 repetitions per pattern, call/return stamped with an atomic logical clock, checked with porcupine, under the race detector. Non-trivial = >= 2 workers touch one key with >= 1 write (or a sweep next to a write); distinct by configuration",
 		Assumptions: []string{"switching only at critical-section boundaries is sound for the single-lock operations (they are atomic by construction) and complete for the multi-step ones only as far as a scheduling point exists between their sections", "stress histories cover only the interleavings the runtime produced"},
 		Floor:       500,
 	}, seq, sched, stress)
